@@ -353,6 +353,9 @@ func c18Control(c *Ctx) {
 				"the kernel map is updated only when "+strings.Join(extra, " and ")+": a binding the control plane was told to change stays (or never appears) in the kernel")
 		}
 		r.Check("C18.control", load.ShortFunc(f), "updates the kernel map "+sp.mapField, c.P.Pos(f.Pos()), found, "no "+sp.method+" on m."+sp.mapField+" in this function")
+		okS, badPos := successNeedsMapCall(c, f, sp.mapField, sp.method)
+		r.Check("C18.control", load.ShortFunc(f), "every successful return has done "+sp.method+" on "+sp.mapField, badPos, okS,
+			sp.fn+" can return nil without the "+sp.method+" although the map is loaded: the control plane believes the binding changed, the kernel still enforces the old state")
 	}
 	// validity flag stored with the address, mode from m.mode
 	for _, sp := range []struct{ fn, addr, flag string }{{"AddBinding", "IPv4Addr", "IPv4Valid"}, {"AddBindingV6", "IPv6Addr", "IPv6Valid"}} {
